@@ -261,6 +261,8 @@ def run_history(files, ops):
                     res = 'exists'
                 except KeyError:
                     res = 'keyerror'
+                except Exception as e:  # noqa
+                    res = 'exception:' + type(e).__name__
                 else:
                     with h:
                         if mode_kind(mode) == 0:
@@ -273,6 +275,9 @@ def run_history(files, ops):
                 try:
                     W.write()
                 except Crash:
+                    crashed = True
+                except Exception as e:  # noqa  (anything but the injected crash is a failure of write() itself)
+                    res = 'exception:' + type(e).__name__
                     crashed = True
                 finally:
                     INJ.active = False
@@ -350,6 +355,8 @@ def oracle_history(files, ops, out):
     aplus_first, trunc_after_aplus = set(), set()   # signature of F-C07-4
     dirty = False  # a crashed finalisation happened: later content clauses are not applied
     for i, (op, (res, pending, user, tmps, crashed)) in enumerate(zip(ops, out)):
+        if res.startswith('exception:'):
+            errs.append('op %d %r raised %s' % (i, op[:3], res[10:]))
         if op[0] == 'open':
             if user != prev_user:
                 errs.append('op %d %r changed the destination directory before finalisation: %s'
@@ -528,7 +535,7 @@ for ln, impl, mo, (cid, files, ops, out) in zip(lines, impls, models, meta):
         chk.count('hist_truncating_reopen_of_pending_a+')
     dests = {o[1] for o in ops if o[0] == 'open' and mode_kind(o[2]) != 0}
     pre = any(n in files for n in dests)
-    inner = any(o[0] == 'fin' and r[4] and o[1] > 0 for o, r in zip(ops, out))
+    inner = any(o[0] == 'fin' and r[4] and (o[1] or 0) > 0 for o, r in zip(ops, out))
     chk.count('hist_ops=%d' % (10 * (len(ops) // 10)))
     chk.count('hist_preexisting_dest' if pre else 'hist_fresh_dests_only')
     for o, r in zip(ops, out):
